@@ -157,6 +157,22 @@ def r1_left_context(ctx, rid):
 
 
 # ------------------------------------------------------------------------------------------------
+def _field_is_mapping(ctx, init, p) -> bool:
+    """does the constructor keep its parameter `p` as a mapping?  (`self.p = {}` / `dict(..)` / a dict comprehension, `p: dict`
+    annotation, or the body iterates `p.items()`)"""
+    for a in init.node.args.args + init.node.args.kwonlyargs:
+        if a.arg == p and a.annotation is not None and "dict" in ast.unparse(a.annotation).lower():
+            return True
+    for n in walk_shallow(init.node):
+        if isinstance(n, ast.Assign) and any(isinstance(t, ast.Attribute) and t.attr == p for t in n.targets) \
+                and (isinstance(n.value, (ast.Dict, ast.DictComp)) or (isinstance(n.value, ast.Call) and call_name(n.value) in ("dict", "OrderedDict"))):
+            return True
+        if isinstance(n, ast.Call) and isinstance(n.func, ast.Attribute) and n.func.attr == "items" and isinstance(n.func.value, ast.Name) \
+                and n.func.value.id == p:
+            return True
+    return False
+
+
 def _ctor_params(ctx, rel, cls):
     c = ctx.repo.get_class(rel, cls)
     init = ctx.repo.lookup_method(c, "__init__")
@@ -282,6 +298,28 @@ def r3_derived_inherits_everything(ctx, rid):
             if p not in src:
                 continue
             fallback = f"{selfn}.{p}" in src[p][1]
+            # ... the WHOLE value: `list(self.p)` / `set(..)` / `tuple(..)` / `sorted(..)` / `self.p.keys()` of a field that the constructor
+            # keeps as a mapping hands on the keys only - what the keys map to (per-operator variations, per-node overrides) is dropped
+            keys_only = None
+            for n_ in walk_shallow(upd.node):
+                is_conv = isinstance(n_, ast.Call) and isinstance(n_.func, ast.Name) and n_.func.id in ("list", "set", "tuple", "sorted", "frozenset") \
+                    and len(n_.args) == 1 and isinstance(n_.args[0], ast.Attribute) and n_.args[0].attr == p \
+                    and isinstance(n_.args[0].value, ast.Name) and n_.args[0].value.id == selfn
+                is_keys = isinstance(n_, ast.Call) and isinstance(n_.func, ast.Attribute) and n_.func.attr == "keys" \
+                    and isinstance(n_.func.value, ast.Attribute) and n_.func.value.attr == p and isinstance(n_.func.value.value, ast.Name) \
+                    and n_.func.value.value.id == selfn
+                if (is_conv or is_keys) and _field_is_mapping(ctx, init, p):
+                    st_ = n_
+                    from engine.srcmodel import parent as _par
+                    while _par(st_) is not None and not isinstance(st_, ast.stmt):
+                        st_ = _par(st_)
+                    if isinstance(st_, ast.Assign) and any(isinstance(t_, ast.Name) and t_.id == p for t_ in st_.targets):
+                        keys_only = n_
+            if keys_only is not None:
+                ctx.violation(rid, upd0, keys_only, f"when `{p}` is not given, update_template falls back to `{ast.unparse(keys_only)}`: `{p}` is a mapping, so "
+                                                    f"this keeps its keys and drops what they map to - the derived template loses the base's per-entry "
+                                                    f"values", label=f"{cls}: `{p}` inherits from base")
+                continue
             if fallback:
                 ctx.ok(rid, upd0, upd0.node, f"`{p}` falls back to / is merged with the base's own {p}", label=f"{cls}: `{p}` inherits from base")
             else:
